@@ -354,6 +354,60 @@ def held_operator(ctx):
     return n
 
 
+def reuse_after_failure(ctx, thorough):
+    """a usage history: the user's function fails once (a transient error at evaluation k, in the forward or in a backward pass), the
+    caller catches the error and uses the SAME function object again.  The second use must give the results of the function form."""
+    from vlib.problems import Boom
+    n = 0
+    W, c = base_tensors(ctx.seed)
+    for fname in FUNCTIONALS:
+        opts = METHOD_OPTS[fname][0]
+        ref = results(fname, Repr("pure", W, c), opts, None, 1)
+        for kind in (("edit", "nn", "sib", "mixed") if thorough else ("edit", "nn", "sib")):
+            # where the function is evaluated: count the evaluations of an undisturbed forward and forward + backward
+            R0 = Repr(kind, W, c)
+            run_functional(fname, R0, opts=opts)
+            kf = R0.ticker.count
+            R1 = Repr(kind, W, c)
+            try:
+                results(fname, R1, opts, None, 1)
+            except Exception:
+                continue
+            kb = R1.ticker.count
+            ks = sorted(set([max(1, kf // 2), kf] + ([kf + 1, (kf + kb + 1) // 2, kb] if kb > kf else [])))
+            for k in ks:
+                n += 1
+                ctx.case(key=("reuse-after-failure", fname, kind, "forward" if k <= kf else "backward", k))
+                why = None
+                R = Repr(kind, W, c)
+                R.ticker.crash_at = k
+                failed = False
+                try:
+                    with warnings.catch_warnings():
+                        warnings.simplefilter("ignore")
+                        results(fname, R, opts, None, 1)
+                except Boom:
+                    failed = True
+                except Exception as e:
+                    why = "the injected failure surfaced as %s: %s" % (type(e).__name__, str(e)[:100])
+                if why is None and failed:
+                    R.ticker.crash_at = None
+                    try:
+                        with warnings.catch_warnings():
+                            warnings.simplefilter("ignore")
+                            got = results(fname, R, opts, None, 1)
+                        for nm, a, b in zip(("value", "first-order gradient"), got, ref):
+                            if not close(a, b):
+                                why = "second use after the failure: %s differs from the function form by %.2e" % (nm, float((a - b).abs().max()) if a.shape == b.shape else float("nan"))
+                                break
+                    except Exception as e:
+                        why = "second use after the failure raised %s: %s" % (type(e).__name__, str(e)[:120])
+                if why:
+                    ctx.violation("repr/reuse-after-failure/%s/%s" % (fname, kind), "%s on the %s representation, function fails once at evaluation %d (%s pass), then the same object is used again: %s"
+                                  % (fname, kind, k, "forward" if k <= kf else "backward", why), {"f": fname, "kind": kind, "k": k})
+    return n
+
+
 def run(ctx):
     thorough = ctx.tier == "thorough"
     torch.manual_seed(ctx.seed)
@@ -377,6 +431,7 @@ def run(ctx):
     nk += library_objects(ctx)
     nk += nested_functionals(ctx)
     nk += held_operator(ctx)
+    nk += reuse_after_failure(ctx, thorough)
     ctx.replayed = nk
     # 2. every functional on every representation, protocol validated by TLC, numeric verdicts in the final event
     traces = []
